@@ -14,8 +14,11 @@ META = dict(
 
 RULE = ("every tree shape of depth <= 3 over {leaf, pointwise unary, delay, binary} with random node kinds, formats, source lengths 0..17 "
         "(sample sources also with a trailing partial frame), each driven by one of next-past-the-end / until_exhausted / take / "
-        "into_interleaved_samples / lift with 0..8 further calls after the end; random depth-4 shapes; by_ref sequences over one finite base; "
-        "non-trivial = tree of depth >= 2 containing a delay with k > 0 or a binary node whose sources have different lengths")
+        "into_interleaved_samples / lift / clone of the whole stack after j calls / clone, nth(k), skip(k) on the returned iterators, with 0..8 "
+        "further calls after the end; random depth-4 shapes; by_ref sequences over one finite base; clone sweeps (interleaved-sample iterator, "
+        "until_exhausted, take cloned after every number of items 0..=total+1, original and clone drained and compared with the model, in which "
+        "a clone is the same state); non-trivial = tree of depth >= 2 containing a delay with k > 0 or a binary node whose sources have "
+        "different lengths, or an interleaved-sample iterator cloned mid-frame (samples consumed not a multiple of the channel count, >= 2 channels)")
 
 FMT_CYCLE = ["i16x2", "u8x3", "i32x1", "i16x2", "f64x1", "u8x3", "i32x1", "f32x2"]
 
@@ -46,6 +49,17 @@ def one_op(r, g, fm, mk_tree, kind, bases=()):
     fin = min(lv, 45) if lv < S.INF else 10
     if kind == "N":
         return ["N", fin + extra, t]
+    if kind == "NC":  # clone the whole stack after j calls
+        j = r.choice([0, 1, fin, max(0, fin - 1), r.range(0, fin + 2)])
+        return ["NC", j, max(0, fin - j) + min(extra, 4) + 1, t]
+    if kind == "IT":  # iterator entry points: clone / nth / skip on the iterators the API returns
+        ik = r.choice([0, 1, 2, 3])
+        mode = r.choice([1, 1, 2, 3])
+        n = r.choice([0, 1, fin, fin + 2, r.range(0, 20)]) if ik == 1 else 0
+        total = (fin if ik == 0 else n if ik == 1 else fin * S.FMTS[fm]["n"])
+        pre = r.choice([0, 1, total, r.range(0, total + 1), r.range(0, total + 1)])
+        k = r.choice([0, 1, 2, r.range(0, total + 2)])
+        return ["IT", ik, n, pre, mode, k, total + 2, min(extra, 3), t]
     if kind == "U":
         return ["U", fin + extra + 1, extra, t]
     if kind == "I":
@@ -58,7 +72,7 @@ def gen_cases(rng, tier):
     items = []
     reps = 2 if tier == "quick" else 12
     shapes = S.shapes(3)
-    kinds = ["U", "N", "I", "L", "T", "U", "N"]
+    kinds = ["U", "N", "I", "L", "T", "IT", "NC", "U", "N", "IT"]
     idx = 0
     for rep_i in range(reps):
         for si, sh in enumerate(shapes):
@@ -122,6 +136,34 @@ def gen_cases(rng, tier):
             if S.valid(it):
                 items.append(S.build(it))
                 break
+    # interleaved clone sweep: a clone taken after EVERY number k of samples in 0..=total+1 (mid-frame
+    # included) continues exactly like the original; also until_exhausted / take clones at every position
+    nsweep = 70 if tier == "quick" else 600
+    n_sweep_ops = 0
+    for k in range(nsweep):
+        r = rng.fork(f"c05_sweep_{k}")
+        fm = r.choice(["i16x2", "u8x3", "i16x2", "u8x3", "f32x2", "i32x1", "f64x1"])
+        for attempt in range(40):
+            g = S.Gen(r, fm)
+            g.lens = list(range(0, 7))
+            t = g.tree(r.choice([0, 1, 1, 2, 2]), finite_leaf(g), p_delay=3)
+            lv = S.live(t, fm)
+            if lv >= S.INF or lv > 8:
+                continue
+            nch = S.FMTS[fm]["n"]
+            total = lv * nch
+            ik = r.choice([2, 2, 3, 3, 0, 1]) if k % 5 else r.choice([0, 1])
+            if ik in (2, 3):
+                ops = [["IT", ik, 0, pre, 1, 0, total + 3, r.below(3), t] for pre in range(0, total + 2)]
+            elif ik == 0:
+                ops = [["IT", 0, 0, pre, 1, 0, lv + 3, r.below(3), t] for pre in range(0, lv + 2)]
+            else:
+                ops = [["IT", 1, lv + 1, pre, 1, 0, lv + 4, r.below(3), t] for pre in range(0, lv + 3)]
+            it = dict(fmt=fm, bases=[], ops=ops)
+            if S.valid(it) and S.float_cost(t, fm) * (lv + 2) * len(ops) * 3 <= 3000:
+                items.append(S.build(it))
+                n_sweep_ops += len(ops)
+                break
     lens = {}
     for it in items:
         for o in it["ops"]:
@@ -135,7 +177,8 @@ def gen_cases(rng, tier):
                     continue
                 lens[key] = lens.get(key, 0) + 1
     return items, {"exhaustive_shape_cases": n_shape, "shapes_depth_le_3": len(shapes), "draws_per_shape": reps,
-                   "random_depth4_cases": n4, "by_ref_sequences": nseq, "source_lengths": lens}
+                   "random_depth4_cases": n4, "by_ref_sequences": nseq, "clone_sweep_cases": nsweep,
+                   "clone_sweep_ops": n_sweep_ops, "source_lengths": lens}
 
 
 def main(rep, tier, seed):
